@@ -813,7 +813,7 @@ class Frame(object):
             return self.sc.unroll[t], t
         if isinstance(itv, ListV) and len(itv.elems) <= 12:
             return itv.elems, t
-        if isinstance(itv, Const) and isinstance(itv.value, (tuple, list)) and len(itv.value) <= 12:
+        if isinstance(itv, Const) and isinstance(itv.value, (tuple, list, bytes, bytearray)) and len(itv.value) <= 12:
             return [Const(x) for x in itv.value], t
         return None, t
 
@@ -1251,7 +1251,18 @@ class Frame(object):
         return False
 
     def ev_JoinedStr(self, node, st):
-        return Sym(ast.unparse(node))
+        # f'a{x!r:>4}b' is the value 'a{!r:>4}b'.format(x): one spelling, with the interpolated values rendered like any other
+        tmpl, args = '', []
+        for v in node.values:
+            if isinstance(v, ast.Constant):
+                tmpl += str(v.value).replace('{', '{{').replace('}', '}}')
+            elif isinstance(v, ast.FormattedValue) and (v.format_spec is None or all(isinstance(x, ast.Constant) for x in v.format_spec.values)):
+                spec = '' if v.format_spec is None else ''.join(str(x.value) for x in v.format_spec.values)
+                tmpl += '{%s%s}' % ('!' + chr(v.conversion) if v.conversion and v.conversion > 0 else '', ':' + spec if spec else '')
+                args.append(self.ev(v.value, st))
+            else:
+                return Sym(ast.unparse(node))
+        return Sym('%r.format(%s)' % (tmpl, ', '.join(render(a) for a in args)))
 
     def ev_Tuple(self, node, st):
         return ListV([self.ev(e, st) for e in node.elts], 'tuple')
@@ -1446,6 +1457,16 @@ class Frame(object):
         path = '%s[%s]' % (render(base), self._slice_text(sl, st))
         if path in st.env:
             return st.env[path]
+        if isinstance(base, Const) and isinstance(base.value, (tuple, str, bytes, bytearray)):
+            # constant folding: a literal sequence indexed / sliced by literals
+            parts = [sl.lower, sl.upper, sl.step] if isinstance(sl, ast.Slice) else [sl]
+            vals = [None if x is None else self.ev(x, st) for x in parts]
+            if all(v is None or (isinstance(v, Const) and (v.value is None or type(v.value) is int)) for v in vals):
+                nums = [None if v is None else v.value for v in vals]
+                try:
+                    return Const(base.value[slice(*nums)] if isinstance(sl, ast.Slice) else base.value[nums[0]])
+                except (IndexError, TypeError, ValueError):
+                    pass
         if isinstance(sl, ast.Slice):
             lo = self.text(sl.lower, st) if sl.lower is not None else ''
             if lo == '0':
@@ -1680,6 +1701,9 @@ class Frame(object):
             if n in ('iter', 'list', 'tuple') and len(args) == 1 and isinstance(args[0], EachV) and not kwargs:
                 record(n)
                 return args[0]
+            if n == 'iter' and len(args) == 1 and not kwargs and isinstance(args[0], Const) and isinstance(args[0].value, (tuple, list, bytes, bytearray)):
+                record(n)
+                return args[0]          # iterating iter(<literal sequence>) is iterating the sequence
             if n == 'reversed' and len(args) == 1 and isinstance(args[0], ListV):
                 rev = []
                 for e in reversed(args[0].elems):
@@ -1708,6 +1732,12 @@ class Frame(object):
 
     def _opaque_call(self, ftext, args, kwargs, recv, meth):
         self.I.unresolved_calls += 1
+        if isinstance(recv, Const) and isinstance(recv.value, str) and meth in PURE_STR_METHODS and not kwargs and \
+                all(isinstance(a, Const) and isinstance(a.value, (str, int)) and not isinstance(a.value, Enum) for a in args):
+            try:
+                return Const(getattr(recv.value, meth)(*[a.value for a in args]))      # constant folding of a pure str method
+            except Exception:
+                pass
         at = self._argtext(args, kwargs)
         base = render(recv)
         # transparent wrappers: bytes(x) etc. are handled elsewhere; here a few text-preserving methods
@@ -1884,6 +1914,9 @@ def normalise_path(p):
     """Aliases decided from the class table once (ParentRef.parent returns _parent)."""
     return p.replace('.parent.', '._parent.') if '.parent.' in p else (p[:-7] + '._parent' if p.endswith('.parent') else p)
 
+
+PURE_STR_METHODS = ('startswith', 'endswith', 'find', 'rfind', 'index', 'count', 'lower', 'upper', 'strip', 'lstrip', 'rstrip',
+                    'isupper', 'islower', 'isdigit', 'isalpha', 'isalnum', 'isspace', 'replace', 'title', 'capitalize')
 
 OPS = {ast.Add: '+', ast.Sub: '-', ast.Mult: '*', ast.Div: '/', ast.FloorDiv: '//', ast.Mod: '%', ast.Pow: '**',
        ast.LShift: '<<', ast.RShift: '>>', ast.BitOr: '|', ast.BitAnd: '&', ast.BitXor: '^', ast.MatMult: '@',
